@@ -8,6 +8,7 @@ import (
 	"context"
 	"errors"
 	"fmt"
+	"math"
 	"path/filepath"
 	"sync"
 	"sync/atomic"
@@ -215,6 +216,51 @@ func (s *rstore) observe() (o obs, err error) {
 	o.Observed = s.h.obs.last[s.storageId]
 	s.h.obs.mu.Unlock()
 	return
+}
+
+// wireRanges asks the store's real StoreDiff handler (what a syncing peer talks to) for several ranges in
+// ONE request - the 32 first-level sub-ranges of the hash space with their elements, plus the whole
+// space as a hash-only range - and compares every per-range answer with what the index itself returns
+// for that range. "" = the answer describes the index.
+func (s *rstore) wireRanges() string {
+	var ranges []ldiff.Range
+	const n = 32
+	step := uint64(math.MaxUint64/n) + 1
+	for i := uint64(0); i < n; i++ {
+		to := (i+1)*step - 1
+		if i == n-1 {
+			to = math.MaxUint64
+		}
+		ranges = append(ranges, ldiff.Range{From: i * step, To: to, Elements: true})
+	}
+	ranges = append(ranges, ldiff.Range{From: 0, To: math.MaxUint64})
+	req := &spacesyncproto.StoreDiffRequest{SpaceId: s.spaceId}
+	for _, r := range ranges {
+		req.Ranges = append(req.Ranges, &spacesyncproto.HeadSyncRange{From: r.From, To: r.To, Elements: r.Elements, Limit: uint32(r.Limit)})
+	}
+	resp, err := s.svc.HandleStoreDiffRequest(ctx, req)
+	if err != nil {
+		return "StoreDiff failed: " + err.Error()
+	}
+	want, err := s.st.InnerStorage().Diff().Ranges(ctx, ranges, nil)
+	if err != nil {
+		return "Ranges failed: " + err.Error()
+	}
+	if len(resp.Results) != len(want) {
+		return fmt.Sprintf("%d results for %d ranges", len(resp.Results), len(want))
+	}
+	for i, w := range want {
+		g := resp.Results[i]
+		if string(g.Hash) != string(w.Hash) || int(g.Count) != w.Count || len(g.Elements) != len(w.Elements) {
+			return fmt.Sprintf("range %d of %d: answer has count %d / %d elements, the index %d / %d", i, len(want), g.Count, len(g.Elements), w.Count, len(w.Elements))
+		}
+		for j, e := range w.Elements {
+			if g.Elements[j].Id != e.Id || g.Elements[j].Head != e.Head {
+				return fmt.Sprintf("range %d of %d: element %d of the answer is %s, the index holds %s there", i, len(want), j, short(g.Elements[j].Id), short(e.Id))
+			}
+		}
+	}
+	return ""
 }
 
 // freshHash is the hash a newly built index with exactly these elements advertises.
